@@ -26,6 +26,11 @@ const (
 	// in Error() makes it go over that (somehow).
 	DefaultMaxDepth    = 150_000
 	DefaultMaxDuration = 10 * time.Second
+	// MaxDepth only counts function calls (Eval); nested expressions, literals and arguments recurse in Go
+	// without counting, so the Go stack used per depth level is not bounded. MaxNesting bounds that recursion itself:
+	// a nested evaluation uses ~2.3KB of stack at most, this keeps the total under the 1GB Go limit
+	// (and examples/pi2.gr which nests 300k deep working).
+	MaxNesting = 400_000
 )
 
 type State struct {
@@ -43,6 +48,7 @@ type State struct {
 	// note that a simple function consumes at least 2 levels and typically at least 3 or 4.
 	MaxDepth    int
 	depth       int // current depth / recursion level
+	nesting     int // current nesting of evalInternal calls (Go recursion)
 	lastNumSet  int64
 	MaxValueLen int // max length of value to save in files, <= 0 for unlimited.
 	// To enforce a max duration or cancel evals.
@@ -87,6 +93,7 @@ func NewBlankState() *State {
 func (s *State) Reset() {
 	s.env = s.rootEnv
 	s.depth = 0
+	s.nesting = 0
 	s.rootEnv.ReleaseAllRegisters() // top level loops interrupted by the panic didn't release theirs.
 }
 
